@@ -123,6 +123,8 @@ def lsp_session(binp, steps, cwd):
     finally:
         try:
             p.wait(timeout=5)
+            if p.returncode not in (0, None):
+                out.append({"server_exit": p.returncode})
         except subprocess.TimeoutExpired:
             p.kill()
     return out
@@ -257,6 +259,15 @@ def run_candidate(c):
             steps = c["steps"]
             out = lsp_session(binp, steps, d)
             obs = {"session": out}
+            crashed = [o for o in out if "server_exit" in o or "error" in o]
+            out = [o for o in out if "server_exit" not in o]
+            if crashed:
+                bad.append("language server died: %s" % crashed)
+            elif any(("publish" in o and o["publish"] is None) for o in out):
+                # no answer within the time limit while the server is alive: inconclusive, never counted as reproduced
+                obs["inconclusive"] = "timeout waiting for the server"
+                obs["mismatches"] = []
+                return False, obs
             for idx, exp in (c.get("expect") or {}).items():
                 i = int(idx)
                 if i >= len(out):
